@@ -291,6 +291,11 @@ def check_C07(ctx):
     big.append('start A\nstruct A\nterminal T {}\n' + '// padding\n' * ctx.n(500, 5000))
     for b in big:
         cases.append(('big', b))
+    # naming/grammar-level malformations: files with injected static-validation violations
+    for _ in range(ctx.n(150, 6000)):
+        g = gen.gen_grammar(ctx.rng, max_nts=5)
+        kinds_inj = gen.inject_violations(ctx.rng, g)
+        cases.append(('injected:' + ','.join(kinds_inj), gen.layout(ctx.rng, gen.render_tokens(g), ctx.rng.choice(['plain', 'random']))))
     srcs = [s for _, s in cases]
     r, m = run_gen_both(ctx, srcs)
     kinds = {}
@@ -304,6 +309,30 @@ def check_C07(ctx):
         elif y is not None and x != y:
             res.disagreements.append(disagreement('generate', s, x, y))
     res.extra['result_kinds'] = kinds
+    # search step (DESIGN 3.5): around every disagreeing case, try the same file with each declared
+    # nonterminal as the start symbol (defects hidden in unreachable declarations become reachable)
+    import re as _re
+    variants = []
+    for d in res.disagreements[:12]:
+        src = d.get('src', '')
+        toks = oracles.lex_spec(src)
+        if toks[0] != 'ok':
+            continue
+        names = [toks[1][i + 1]['name'] for i in range(len(toks[1]) - 1)
+                 if toks[1][i]['kind'] in ('StructKw', 'EnumKw') and toks[1][i + 1]['kind'] == 'Ident']
+        starts = [i for i in range(len(toks[1]) - 1) if toks[1][i]['kind'] == 'StartKw' and toks[1][i + 1]['kind'] == 'Ident']
+        if len(starts) != 1:
+            continue
+        st = toks[1][starts[0] + 1]
+        b = src.encode('utf-8')
+        for nme in names:
+            variants.append((b[:st['start']] + nme.encode() + b[st['end']:]).decode('utf-8'))
+    if variants:
+        for v, x in zip(variants, vlib.run_rust('gen', hex_lines(variants))):
+            res.evaluations += 1
+            k = classify(x)
+            if k != 'Ok' and not k.startswith('Err:'):
+                res.failures.append(dict(kind='generate-not-total', src=v, impl=short(x), expected='Ok(..) or Err(..)', label='search:start-variant'))
     # child processes with a watchdog (aborts / stack overflows / hangs are invisible to catch_unwind)
     sub = srcs[:ctx.n(40, 400)] + big
     for s, x in zip(sub, run_children(sub)):
@@ -526,8 +555,9 @@ def check_C16(ctx):
             res.failures.append(dict(kind='layout-changes-result', src=a, relayout=b, impl=short(na), impl_relayout=short(nb),
                                      expected='identical results modulo hash line / position shift'))
             continue
-        for s, x, y in ((a, xa, m[2 * i]), (b, xb, m[2 * i + 1])):
-            if y is not None and x != y:
+        for s, x, y, tk in ((a, xa, m[2 * i], ta[1]), (b, xb, m[2 * i + 1], tb[1])):
+            # the embedded source hash is C15's business: compare modulo the hash line
+            if y is not None and x != y and oracles.normalise_result(x, s, tk) != oracles.normalise_result(y, s, tk):
                 res.disagreements.append(disagreement('generate', s, x, y))
     return res
 
@@ -616,6 +646,8 @@ def check_C13(ctx):
     for _ in range(ctx.n(200, 8000)):
         g = gen.gen_grammar(ctx.rng, max_nts=4)
         g.terminals = [(t, ty(ctx.rng.randint(0, 6))) for t, _ in g.terminals]
+        if ctx.rng.random() < 0.3:
+            gen.retype_like_nonterminal(ctx.rng, g)
         cases.append(gen.render(ctx.rng, g, ctx.rng.choice(['plain', 'random'])))
         meta.append(g)
     cases.append(gen.CURATED['generic_types'])
@@ -685,7 +717,17 @@ def check_automaton(ctx, pid):
         if fail is not None:
             res.failures.append(dict(kind=fail[0], src=s, impl=fail[1], expected=fail[2], label=label))
         elif y is not None and x != y:
-            res.disagreements.append(dict(kind='machine/table', src=s, impl=short(x), model=short(y)))
+            # compare the projection this property is about
+            py = oracles.parse_mt(y)
+            if pid == 'C04':
+                differs = py is None or bool(py['conflict']) != bool(parsed['conflict'])
+            elif pid == 'C17':
+                differs = (not parsed['conflict']) and (py is None or py['conflict'] or py['machine'] != parsed['machine']
+                                                         or py['table'] != parsed['table'])
+            else:
+                differs = bool(parsed['conflict'])
+            if differs:
+                res.disagreements.append(dict(kind='machine/table', src=s, impl=short(x), model=short(y)))
     res.extra['result_kinds'] = hist
     return res
 
